@@ -1,5 +1,8 @@
 import Enc.Lemmas.JsonEncTypedEq
 import Enc.Lemmas.JsonRtTypedTop
+import Enc.Lemmas.JsonRtTypedUnsortedTop
+import Enc.Lemmas.JsonRtTypedUnsortedStd
+import Enc.Lemmas.JsonEncTypedValid
 import Enc.Lemmas.JsonDecTypedValid
 import Enc.Lemmas.JsonValid
 /-!
@@ -10,7 +13,7 @@ of the universe `JT` of the typed decoder, encoding direction: encodeBool, encod
 encodeFloat64 (Model/Json/EncFloat.lean), encodeString, encodeBytes, encodeSlice / encodeArray, the map encoders, encodePointer,
 encodeStruct, encodeInterface → `Append` of the dynamic value). Specification: `Enc/Spec/Json/EncTypedSpec.lean` (encoding/json's
 output by recursion on type and value) and `Enc/Spec/Json/TypedRoundTrip.lean` (`norm`, `canon`). Proofs:
-`Enc/Lemmas/JsonEncTyped*.lean`, `Enc/Lemmas/JsonRtTyped*.lean`. Model, specification, the package and encoding/json are compared
+`Enc/Lemmas/JsonEncTyped*.lean`, `Enc/Lemmas/JsonRtTyped*.lean` (without SortMapKeys: `Enc/Lemmas/JsonRtTypedUnsorted*.lean`). Model, specification, the package and encoding/json are compared
 on every case of harness/c01typed.go (ops `json.enctyped`, `json.rttyped`).
 
 Parameters of every statement: `sc` — strconv on the float64 a literal denotes (TRUSTED shape `ScShape`, as in Props/C01Float.lean;
@@ -21,6 +24,7 @@ open Enc Enc.Model.Json Enc.Model.Json.Typed
 open Enc.Lemmas.JsonEncTyped (okE wt ScShape OrdPerm okEntries)
 open Enc.Lemmas.JsonDecTypedPlain (noPP)
 open Enc.Spec.Json (encSpec canon wfT norm depthV)
+open Enc.Lemmas.JsonRtTypedU (MemOrd SoPerm encSpecU genericTextU soOf)
 
 /-- **C01, typed values (MAIN).** For every type of the universe (bool, the ten integer widths, float64, string, `[]T` incl.
 `[]byte`, `[n]T`, `map[string]T`, `*T`, structs, `any` holding nil / a generic value / a pointer, arbitrarily nested), every
@@ -42,8 +46,8 @@ theorem encodeTyped_iteration_order (sc : Strconv) (hsc : ScShape sc) (html : Bo
   rw [encodeTyped_eq_spec sc hsc html ord hord t v h, encodeTyped_eq_spec sc hsc html ord' hord' t v h]
 
 /-- the map encoders, SortMapKeys on or off, any iteration order: the object written has the SAME members (key text, value text),
-rearranged — `l'` is a permutation of the entries. (Statement for one map; the rearrangement of the whole tree, and the round
-trip of the unsorted output, are not proved: see the report.) -/
+rearranged — `l'` is a permutation of the entries. (Statement for one map; the whole tree: `encodeTyped_sort_perm` below; the
+round trip of the unsorted output: `typed_round_trip_unsorted`.) -/
 theorem encodeMapT_sort_perm (html sortKeys : Bool) (ord : MapOrd) (hord : OrdPerm ord) (l : List (Bytes × Bytes)) :
     ∃ l' : List (Bytes × Bytes), l'.Perm l ∧ encodeMapT html sortKeys ord (okEntries l) =
       .ok ([0x7b] ++ MapKeyOrder.joinMembers (l'.map fun p => (encodeString p.1 html, p.2)) true ++ [0x7d]) :=
@@ -64,15 +68,75 @@ theorem typed_round_trip (sc : Strconv) (hsc : ScShape sc) (c : TFlags) (t : JT)
   exact ⟨x, hx, Lemmas.JsonRtTyped.model_round_trip sc hsc c true id (fun _ => List.Perm.refl _) t v x hpp hwf hc hd hx⟩
 
 /-- … the same for `Append(nil, v, flags)` with SortMapKeys, both EscapeHTML settings, every iteration order of the runtime.
-`_partial`: the full statement has `sortKeys : Bool` in place of `true`; WITHOUT SortMapKeys the members of every object come in
-the runtime's order — the decoder then assigns the same keys in another order, which gives the same map, but that is not proved
-(the differential `json.enctyped` with sort = 0 compares those outputs as member multisets on the real code). -/
+(`_partial`: the SortMapKeys half; the other half is `typed_round_trip_unsorted`, both together `typed_round_trip_append`.) -/
 theorem typed_round_trip_append_partial (sc : Strconv) (hsc : ScShape sc) (c : TFlags) (html : Bool)
     (ord : MapOrd) (hord : OrdPerm ord) (t : JT) (v : JV) (hpp : noPP t = true) (hwf : wfT t = true)
     (hc : canon sc c t v = true) (hd : depthV v ≤ 10000) :
     ∃ x, encodeTyped sc html true ord t v = .ok x ∧ unmarshalTyped c t (zeroOf t) x = .ok (norm v) := by
   obtain ⟨x, hx⟩ := Lemmas.JsonRtTyped.model_ok sc hsc c html ord hord t v hc
   exact ⟨x, hx, Lemmas.JsonRtTyped.model_round_trip sc hsc c html ord hord t v x hpp hwf hc hd hx⟩
+
+/-! ### WITHOUT SortMapKeys (C14: "with SortMapKeys off object members are only permuted") -/
+
+/-- **C14, the typed round trip of the UNSORTED output.** `Append(nil, v, flags)` WITHOUT SortMapKeys, both EscapeHTML
+settings, EVERY iteration order `ord` of the runtime's maps (applied at every map node, typed maps and `map[string]any` inside
+interfaces): the encoder as coded succeeds, and `Unmarshal` as coded stores `norm v` into a fresh zero target — the decoder
+assigns the members in document order (`Props/C02Typed.merge_map`), canonical maps have pairwise distinct keys and the map
+representation is order-normalised, so the order of the members does not matter. -/
+theorem typed_round_trip_unsorted (sc : Strconv) (hsc : ScShape sc) (c : TFlags) (html : Bool)
+    (ord : MapOrd) (hord : OrdPerm ord) (t : JT) (v : JV) (hpp : noPP t = true) (hwf : wfT t = true)
+    (hc : canon sc c t v = true) (hd : depthV v ≤ 10000) :
+    ∃ x, encodeTyped sc html false ord t v = .ok x ∧ unmarshalTyped c t (zeroOf t) x = .ok (norm v) := by
+  obtain ⟨x, hx⟩ := Lemmas.JsonRtTypedU.model_okU sc hsc c html false ord hord t v hc
+  exact ⟨x, hx, Lemmas.JsonRtTypedU.model_round_tripU sc hsc c html false ord hord t v x hpp hwf hc hd hx⟩
+
+/-- … hence the full statement of `typed_round_trip_append_partial`: every flag combination of `Append` -/
+theorem typed_round_trip_append (sc : Strconv) (hsc : ScShape sc) (c : TFlags) (html sortKeys : Bool)
+    (ord : MapOrd) (hord : OrdPerm ord) (t : JT) (v : JV) (hpp : noPP t = true) (hwf : wfT t = true)
+    (hc : canon sc c t v = true) (hd : depthV v ≤ 10000) :
+    ∃ x, encodeTyped sc html sortKeys ord t v = .ok x ∧ unmarshalTyped c t (zeroOf t) x = .ok (norm v) := by
+  obtain ⟨x, hx⟩ := Lemmas.JsonRtTypedU.model_okU sc hsc c html sortKeys ord hord t v hc
+  exact ⟨x, hx, Lemmas.JsonRtTypedU.model_round_tripU sc hsc c html sortKeys ord hord t v x hpp hwf hc hd hx⟩
+
+/-- the same about the standard library's decoder alone and ANY rearrangement `so` of the members at every map node:
+`encSpecU sc html so` is `encSpec` with `so members` in place of the sorted members (`encSpecU_stdSort`) -/
+theorem typed_round_trip_std_unsorted (sc : Strconv) (c : TFlags) (html : Bool) (so : MemOrd) (hso : SoPerm so) (t : JT) (v : JV)
+    (x : Bytes) (hc : canon sc c t v = true) (hwf : wfT t = true) (hd : depthV v ≤ 10000)
+    (hx : encSpecU sc html so t v = some x) : Spec.Json.unmarshalTyped c t (zeroOf t) x = some (norm v) :=
+  Lemmas.JsonRtTypedU.spec_round_tripU sc c html so hso t v x hc hwf hd hx
+
+/-- what `encSpecU` is: with the sort as rearrangement it is the specification encoder itself -/
+theorem encSpecU_stdSort (sc : Strconv) (html : Bool) (t : JT) (v : JV) :
+    encSpecU sc html Spec.Json.MapKeys.stdSort t v = encSpec sc html t v :=
+  Lemmas.JsonRtTypedU.encSpecU_stdSort sc html t v
+
+/-- **C14, the WHOLE value tree, every well-typed value: without SortMapKeys the members are only permuted.** The output
+without SortMapKeys (iteration order `ord`) is the specification's output with a REARRANGEMENT (`soOf false ord`, a permutation
+of its argument) in place of the sort at every map node of the tree — same member texts, same nesting —; it is an error exactly
+when the sorted output (any iteration order `ord'`) is, and the two outputs have the same length. -/
+theorem encodeTyped_sort_perm_wt (sc : Strconv) (hsc : ScShape sc) (html : Bool) (ord ord' : MapOrd) (hord : OrdPerm ord)
+    (hord' : OrdPerm ord') (t : JT) (v : JV) (h : wt t v = true) :
+    SoPerm (soOf false ord) ∧
+    okE (encodeTyped sc html false ord t v) = encSpecU sc html (soOf false ord) t v ∧
+    okE (encodeTyped sc html true ord' t v) = encSpec sc html t v ∧
+    (okE (encodeTyped sc html false ord t v)).map List.length = (okE (encodeTyped sc html true ord' t v)).map List.length :=
+  Lemmas.JsonRtTypedU.sort_perm_wt sc hsc html ord ord' hord hord' t v h
+
+/-- … and for canonical values nested at most 10000 deep: both outputs exist, have the same length, and encoding/json's decoder
+(the specification) reads THE SAME value from both — the original up to `norm` — i.e. they have the same members at every
+object -/
+theorem encodeTyped_sort_perm (sc : Strconv) (hsc : ScShape sc) (c : TFlags) (html : Bool) (ord ord' : MapOrd)
+    (hord : OrdPerm ord) (hord' : OrdPerm ord') (t : JT) (v : JV) (hwf : wfT t = true) (hc : canon sc c t v = true)
+    (hd : depthV v ≤ 10000) :
+    ∃ x y, encodeTyped sc html false ord t v = .ok x ∧ encodeTyped sc html true ord' t v = .ok y ∧
+      encSpecU sc html (soOf false ord) t v = some x ∧ encSpec sc html t v = some y ∧ x.length = y.length ∧
+      Spec.Json.unmarshalTyped c t (zeroOf t) x = some (norm v) ∧ Spec.Json.unmarshalTyped c t (zeroOf t) y = some (norm v) :=
+  Lemmas.JsonRtTypedU.sort_perm sc hsc c html ord ord' hord hord' t v hwf hc hd
+
+/-- two member orders: the specification's outputs fail together and have the same length -/
+theorem encSpecU_length (sc : Strconv) (html : Bool) (so1 so2 : MemOrd) (h1 : SoPerm so1) (h2 : SoPerm so2) (t : JT) (v : JV) :
+    (encSpecU sc html so1 t v).map List.length = (encSpecU sc html so2 t v).map List.length :=
+  Lemmas.JsonRtTypedU.encSpecU_length sc html so1 so2 h1 h2 t v
 
 /-- the same about the standard library alone: encoding/json's decoder reads `norm v` from encoding/json's encoder's output
 (no hypothesis on pointers to pointers, none on strconv's shape) -/
@@ -94,8 +158,8 @@ theorem base64_round_trip (bs : Bytes) :
     Spec.Json.b64DecodeStd (Spec.Json.unquoteLit ([0x22] ++ Buf.b64 bs ++ [0x22])) = some bs :=
   Lemmas.JsonRtTyped.b64_roundtrip bs
 
-/-- **output is valid JSON** (canonical values nested at most 10000 deep; `_partial`: the general statement is for every
-well-typed value whose float texts are numbers — pointers inside interfaces, invalid UTF-8 in keys included) -/
+/-- **output is valid JSON** (canonical values nested at most 10000 deep, sorted keys; the general statement — every
+well-typed value whose float texts are numbers, SortMapKeys on or off — is `encodeTyped_valid` below) -/
 theorem encodeTyped_valid_partial (sc : Strconv) (hsc : ScShape sc) (c : TFlags) (html : Bool)
     (ord : MapOrd) (hord : OrdPerm ord) (t : JT) (v : JV) (x : Bytes) (hwf : wfT t = true) (hc : canon sc c t v = true)
     (hd : depthV v ≤ 10000) (hx : encodeTyped sc html true ord t v = .ok x) : valid x = true := by
@@ -104,6 +168,16 @@ theorem encodeTyped_valid_partial (sc : Strconv) (hsc : ScShape sc) (c : TFlags)
   have hs := Lemmas.JsonRtTyped.spec_round_trip sc c html t v x hc hwf hd he.symm
   rw [Lemmas.JsonValid.valid_eq_validStd]
   exact Lemmas.JsonDecTypedValid.spec_ok_valid c t (zeroOf t) x _ hs
+
+/-- **output is valid JSON, EVERY well-typed value** (pointers inside interfaces, invalid UTF-8 in strings and keys, stale slice
+tails included), SortMapKeys on or off, both EscapeHTML settings, every iteration order: if the encoder as coded returns no
+error and the value is nested at most 10000 deep, `Valid` accepts the output. `floatsNum sc v`: every float text that strconv +
+the ES6 clean-up deliver for a float64 of the value is a number of the RFC 8259 grammar (a hypothesis on the strconv parameter
+`sc`: `ScShape` constrains its digit strings only as far as the encoder's clean-up needs). -/
+theorem encodeTyped_valid (sc : Strconv) (hsc : ScShape sc) (html sortKeys : Bool) (ord : MapOrd) (hord : OrdPerm ord)
+    (t : JT) (v : JV) (x : Bytes) (h : wt t v = true) (hfl : Lemmas.JsonEncTypedValid.floatsNum sc v = true)
+    (hd : depthV v ≤ 10000) (hx : encodeTyped sc html sortKeys ord t v = .ok x) : valid x = true :=
+  Lemmas.JsonEncTypedValid.encodeTyped_valid sc hsc html sortKeys ord hord t v x h hfl hd hx
 
 /-! ### non-vacuity / concrete behaviour (evaluated by the kernel) -/
 
@@ -151,6 +225,27 @@ example : norm vS = .strct (.cons (.slice false (.cons (.map false (.cons (asc "
 /-- a non-nil pointer to a nil slice is written `null` and comes back as a nil pointer (the distinction JSON cannot carry) -/
 example : norm (.ptr true (.slice true .nil .nil)) = .nilptr := by decide
 example : encodeTyped scZero true true id (.ptr (.slice .bool)) (.ptr true (.slice true .nil .nil)) = .ok (asc "null") := by
+  decide +kernel
+
+/-! #### without SortMapKeys: map[string]map[string]int with two entries at both levels, reversed iteration order -/
+def tM : JT := .mapS (.mapS (.int .int))
+def vM : JV := .map false (.cons (asc "a") (.map false (.cons (asc "x") (.int 1) (.cons (asc "y") (.int 2) .nil)))
+  (.cons (asc "b") (.map false .nil) .nil))
+
+example : noPP tM = true ∧ wfT tM = true ∧ canon scZero c0 tM vM = true ∧ depthV vM ≤ 10000 := by decide +kernel
+theorem reverse_ordPerm : OrdPerm List.reverse := fun l => List.reverse_perm l
+/-- the members come in the runtime's order at every level … -/
+example : encodeTyped scZero true false List.reverse tM vM = .ok (asc "{\"b\":{},\"a\":{\"y\":2,\"x\":1}}") := by
+  decide +kernel
+/-- … and the value comes back -/
+example : unmarshalTyped c0 tM (zeroOf tM) (asc "{\"b\":{},\"a\":{\"y\":2,\"x\":1}}") = .ok (norm vM) := by decide +kernel
+example : ∃ x, encodeTyped scZero true false List.reverse tM vM = .ok x ∧ unmarshalTyped c0 tM (zeroOf tM) x = .ok (norm vM) :=
+  typed_round_trip_unsorted scZero scZero_shape c0 true List.reverse reverse_ordPerm tM vM (by decide +kernel) (by decide +kernel)
+    (by decide +kernel) (by decide +kernel)
+example : SoPerm (soOf false List.reverse) := (encodeTyped_sort_perm_wt scZero scZero_shape true List.reverse id reverse_ordPerm
+  (fun _ => List.Perm.refl _) tM vM (by decide +kernel)).1
+
+example : Lemmas.JsonEncTypedValid.floatsNum scZero vS = true ∧ Lemmas.JsonEncTypedValid.floatsNum scZero vM = true := by
   decide +kernel
 
 end Enc.Props.C01Typed
